@@ -360,7 +360,11 @@ class Fragment:
         rtxt = " -> (%s)" % ret if ret else ""
         if self.orig[s] == "{":
             c = match_close(self.orig, toks, i)
-            sp = spec
+            inner = self.orig[s + 1:toks[c][1]].strip()
+            specbody = inner
+            for pat, rep in spec_map:
+                specbody = re.sub(pat, rep, specbody)
+            sp = spec.replace("{body}", inner).replace("{specbody}", specbody)
             self.replace_span(m.start(), m.end(), head, rule, "closure parameter types") if head != self.orig[m.start():m.end()] else None
             self.insert_at(s, "%s %s " % (rtxt, sp))
             return self
